@@ -90,11 +90,12 @@ def enqueueBad (s : State) (m : Nat) : State × Err :=
   | (s', .ok) => ({ s' with badTokens := s.nextToken :: s.badTokens }, .ok)
   | (_, e) => (s, e)
 
-/-- some selected member's head pair is malformed: the nonce computation after DequeueDEs fails -/
+/-- some selected member's head pair is malformed (the nonce computation after DequeueDEs fails), or a selected member
+    has no queued pair at all (DequeueDE itself fails; the sampler never selects such a member, C09) -/
 def headBad (s : State) (committee : List Nat) : Bool :=
   committee.any fun m => match s.queues m with
     | t :: _ => decide (t ∈ s.badTokens)
-    | [] => false
+    | [] => true
 
 def resetDE (s : State) (m : Nat) : State := { s with queues := fun x => if x = m then [] else s.queues x }
 
@@ -168,6 +169,16 @@ def request (s : State) (sender : Nat) (authority : Bool) (feeLimit : Coins) (co
     | (s2, .ok) => (recordB s2 (feeFor s authority) sender, .ok)
     | (_, e) => (s, e)
   | e => (s, e)
+
+/-- `CreateDirectSigningRequest` called by another module (an oracle result asking for a signature): the same creation without
+    the message-level validation of the fee limit (`MsgRequestSignature.ValidateBasic`) -/
+def requestKeeper (s : State) (sender : Nat) (feeLimit : Coins) (committee : List Nat) (height : Int) : State × Err :=
+  if !geAll s feeLimit (reqCost s false) then (s, .feeExceedsLimit)
+  else if !geAll s (s.bal sender) (reqCost s false) then (s, .insufficientFunds)
+  else
+    match tssRequest (escrowed s sender false) committee height with
+    | (s2, .ok) => (recordB s2 (feeFor s false) sender, .ok)
+    | (_, e) => (s, e)
 
 /-! ### SubmitSignature -/
 /-- AddPartialSignature, and the pending-process entry when the attempt's set is complete -/
